@@ -46,9 +46,12 @@ def run(ctx: Ctx) -> None:
     ctx.rule("D6.6", "the frequency table is logged under the lengths it "
              "is indexed by")
     _h_log(ctx)
+    ctx.rule("D6.7", "the kernels compute with numba's default (64-bit) "
+             "integer locals")
     for modn, kern, cls in (EA, FEA):
         k = ctx.repo.func(modn, kern)
         ctx.need(k.njit is not None, f"{kern} is an njit kernel")
+        _typed_locals(ctx, k)
         info = _kernel(ctx, k, fea=(kern == FEA[1]))
         _solve(ctx, ctx.repo.func(modn, f"{cls}.solve"), k,
                fea=(kern == FEA[1]), kinfo=info)
@@ -825,3 +828,49 @@ def _h_log(ctx: Ctx) -> None:
                 "the logged lengths are shifted" if v is None or isinstance(
                     v, int) else "the offset argument of log_h is not "
                 "recognised"), construct="H table offset")
+
+
+
+def _typed_locals(ctx: Ctx, k: Any) -> None:
+    """The O(1) update `y + dy` is exact only in an integer type that holds
+    every tour length (numba types integer locals as int64; C05 bounds the
+    lengths by 10^15).  A `locals={..}` / signature entry of the njit
+    decorator that narrows a local makes the stored value wrap silently."""
+    wide = {"int64", "intp", "uint64", "float64", "double", "int_",
+            "longlong"}
+    bad: list[str] = []
+    unknown: list[str] = []
+    for d in k.node.decorator_list:
+        if not isinstance(d, ast.Call):
+            continue
+        for kw in d.keywords:
+            if kw.arg != "locals":
+                continue
+            if not isinstance(kw.value, ast.Dict):
+                unknown.append(ast.unparse(kw.value)[:40])
+                continue
+            for kk, vv in zip(kw.value.keys, kw.value.values):
+                tn = ast.unparse(vv).split(".")[-1].split("(")[0]
+                nm = kk.value if isinstance(kk, ast.Constant) else "?"
+                if tn in wide:
+                    continue
+                if tn in ("int32", "int16", "int8", "uint32", "uint16",
+                          "uint8", "float32", "intc", "short"):
+                    bad.append(f"{nm}: {ast.unparse(vv)}")
+                else:
+                    unknown.append(f"{nm}: {ast.unparse(vv)}")
+        # an explicit signature as first positional argument
+        for a in d.args:
+            if isinstance(a, (ast.Constant, ast.Call)) and any(
+                    t in ast.unparse(a) for t in ("int32", "int16", "int8",
+                                                  "float32")):
+                bad.append("signature " + ast.unparse(a)[:50])
+    ctx.ob("D6.7", k, k.node, not bad and not unknown,
+           f"{k.name}: no local is narrowed below 64 bit" if not bad
+           and not unknown else (
+               f"{k.name}: the njit decorator types {bad} narrower than "
+               "64 bit: a delta or length beyond that range wraps silently "
+               "(distances up to 10^15 are accepted by the instance)"
+               if bad else f"{k.name}: typed locals {unknown} are not "
+               "recognised"), construct=f"typed locals of {k.name}",
+           nontrivial=False)
